@@ -67,15 +67,8 @@ pub fn wr_w(er: &mut [u32; 8], f: u8, v: u16) {
 }
 
 pub fn regs_eq(a: &[u32; 8], b: &[u32; 8]) -> bool {
-    let mut ok = true;
-    let mut i = 0;
-    while i < 8 {
-        if a[i] != b[i] {
-            ok = false;
-        }
-        i += 1;
-    }
-    ok
+    // unrolled on purpose (no loop: keeps the unwinding bound a harness needs small)
+    a[0] == b[0] && a[1] == b[1] && a[2] == b[2] && a[3] == b[3] && a[4] == b[4] && a[5] == b[5] && a[6] == b[6] && a[7] == b[7]
 }
 
 pub const CCR_C: u8 = 0x01;
